@@ -27,3 +27,11 @@ Lemma variants_agree_thm :
   (forall b : list N, length b = 46 -> all_bytes b ->
      map b2n (bytes_bits (randomize_bytes b)) = randomize_bits (map b2n (bytes_bits b))).
 Proof. split; [exact variants_agree_soft_bits_lemma | exact variants_agree_bytes_bits_lemma]. Qed.
+
+Lemma closed_form_thm : forall (A : Type) (d : A) (l : list A),
+  interleave d l = map (fun j => nth (pi j) l d) (seq 0 368) /\
+  deinterleave d l = map (fun j => nth (pi j) l d) (seq 0 368).
+Proof. intros A d l. rewrite interleave_eq_deinterleave_lemma, deinterleave_map_lemma.
+  assert (E : map (fun i => nth (il_index i) l d) (seq 0 368) = map (fun j => nth (pi j) l d) (seq 0 368)).
+  { apply map_ext. intro j. rewrite il_index_is_pi. reflexivity. }
+  rewrite E. split; reflexivity. Qed.
